@@ -475,6 +475,11 @@ pub fn gen_input(corpus: &[vcommon::corpus::CorpusFile], seed: u64, tag: &str, j
     // every second generated input is a synthetic module of adjacent alignable items with varied
     // name lengths, one item per source line (alignsyn.rs); half of those keep that layout
     let m = j - n;
+    if m % 8 == 7 {
+        let t = crate::alignsyn::string_module(&mut rng);
+        let o = LayoutOpts::random(&mut rng);
+        return (format!("strsyn+layout#{m}"), layout(&t, &mut rng, &o));
+    }
     if m % 2 == 1 {
         let text = crate::alignsyn::module(&mut rng);
         if (m / 2) % 2 == 0 {
@@ -501,6 +506,10 @@ pub fn gen_input(corpus: &[vcommon::corpus::CorpusFile], seed: u64, tag: &str, j
         let del = *rng.pick(&[0u64, 300, 1000]);
         text = mutate_trailing_commas(&text, &mut rng, add, del);
         ops.push("commas");
+    }
+    if rng.chance(1, 4) {
+        text = crate::alignsyn::mutate_strings(&text, &mut rng, 700);
+        ops.push("strings");
     }
     if ops.is_empty() {
         let o = LayoutOpts { ws_permille: 900, insert_permille: 100, comment_permille: 40, multibyte: true, ..Default::default() };
